@@ -264,8 +264,9 @@ theorem inv_delVault (cfg : Nat → Option Product) (s s' : State) (p : Product)
 /-- an open vault is seized: it moves to the list awaiting auction settlement, the totals stay -/
 theorem inv_seizeVault (cfg : Nat → Option Product) (s s' : State) (p : Product) (v0 : VaultRec)
     (hinv : Inv cfg s) (hm : v0 ∈ s.vaults) (hp : cfg v0.product = some p)
+    (dbt : Int)
     (hV : s'.vaults = delVault s.vaults v0.id) (hS : s'.stables = s.stables)
-    (hL : s'.locked = s.locked ++ [{ vaultId := v0.id, product := v0.product, amountIn := v0.amountIn, amountOut := v0.amountOut }])
+    (hL : s'.locked = s.locked ++ [{ vaultId := v0.id, product := v0.product, amountIn := v0.amountIn, amountOut := v0.amountOut, debt := dbt }])
     (hnv : s'.nextVault = s.nextVault) (hns : s'.nextStable = s.nextStable) (hlen : s'.length = s.length - 1)
     (hun : s'.unsolicited = s.unsolicited) (hex : s'.extSupply = s.extSupply)
     (hbal : ∀ d, s'.bal vm d = s.bal vm d + if d = p.denomIn then - v0.amountIn else 0)
@@ -277,7 +278,7 @@ theorem inv_seizeVault (cfg : Nat → Option Product) (s s' : State) (p : Produc
   obtain ⟨⟨hnd, hvs, hnds, hss, hls⟩, _, _, _, _⟩ := hinv
   obtain ⟨m1, m2, m3, m4⟩ := measures_delVault cfg s.vaults v0 p hnd hm hp
   obtain ⟨n2, n3, n4⟩ := measures_snocLocked cfg s.locked
-    { vaultId := v0.id, product := v0.product, amountIn := v0.amountIn, amountOut := v0.amountOut } p hp
+    { vaultId := v0.id, product := v0.product, amountIn := v0.amountIn, amountOut := v0.amountOut, debt := dbt } p hp
   have hlenl : ((delVault s.vaults v0.id).length : Int) = s.vaults.length - 1 := by
     have h1 := sumBy_delBy (·.id) (fun _ => (1 : Int)) s.vaults v0 hnd hm
     have hone : ∀ l : List VaultRec, sumBy (fun _ => (1 : Int)) l = l.length := by
@@ -723,7 +724,7 @@ theorem seize_inv (cfg : Nat → Option Product) (s s' : State) (p : Product) (e
     simp only [Option.map_eq_some_iff] at h
     obtain ⟨s1, hb, rfl⟩ := h
     have eff := runBank_effect _ s s1 hb
-    refine inv_seizeVault cfg s _ p v0 hinv hm hp (by simp [eff.same.vaults]) eff.same.stables
+    refine inv_seizeVault cfg s _ p v0 hinv hm hp (v0.amountOut + (v0.interest + i) + v0.closingFee) (by simp [eff.same.vaults]) eff.same.stables
       (by simp [eff.same.locked]) eff.same.nextVault eff.same.nextStable (by simp [eff.same.length])
       eff.same.unsolicited eff.same.extSupply ?_ ?_ ?_ ?_ ?_
     · intro d
@@ -1029,11 +1030,19 @@ def Msg.userOk : Msg → Prop
   | .stableCreate f .. | .stableDeposit f .. | .stableWithdraw f .. | .donate f .. => f ≠ vm
   | _ => True
 
-/-- **Every message preserves the ledger invariant.** -/
+/-- auction settlement is the one modelled step that does not preserve the totals clause (finding D13) -/
+def Msg.notSettle : Msg → Prop
+  | .settle _ => False
+  | _ => True
+
+instance (m : Msg) : Decidable m.notSettle := by cases m <;> unfold Msg.notSettle <;> infer_instance
+
+/-- **Every message (other than auction settlement) preserves the ledger invariant.** -/
 theorem step_inv (cfg : Nat → Option Product) (hc : CfgOk cfg) (s s' : State) (e : Env) (m : Msg)
-    (hm : m.userOk) (hinv : Inv cfg s) (h : step cfg s e m = some s') : Inv cfg s' := by
+    (hm : m.userOk) (hns : m.notSettle) (hinv : Inv cfg s) (h : step cfg s e m = some s') : Inv cfg s' := by
   unfold step at h
   cases m with
+  | settle v => exact absurd hns (by simp [Msg.notSettle])
   | donate f d x => exact donate_inv cfg s s' f d x hm hinv h
   | fund t d x => exact fund_inv cfg s s' t d x hinv h
   | create f a pr i o =>
